@@ -192,10 +192,15 @@ func (s *KeyStore) ListKeyRings() (rings []string, err error) {
 		s.log.WithError(err).Debug("failed to list key rings")
 		return nil, err
 	}
+	// Only "<ring>.keyring" entries are key rings: a "<ring>.keyring.new" may be left behind
+	// by an update that was interrupted before its final rename.
+	keyRings := rings[:0]
 	for i := range rings {
-		rings[i] = strings.TrimSuffix(rings[i], keyringSuffix)
+		if strings.HasSuffix(rings[i], keyringSuffix) {
+			keyRings = append(keyRings, strings.TrimSuffix(rings[i], keyringSuffix))
+		}
 	}
-	return rings, nil
+	return keyRings, nil
 }
 
 // DescribeKeyRing describes key ring by its purpose path.
